@@ -303,3 +303,122 @@ func c07DrainLock(c *core.Ctx, lib, svc *packages.Package) {
 	}
 	c.Floor(rule, "Service methods that take Service.mu", n, 8)
 }
+
+// c07DrainLockTopics: the same cycle one package down (F37b–e, second half). A publish handler delivers into another topic through
+// Topics.Collect, which takes Topics.mu; a method of Topics that waits for handler goroutines (anything that reaches a
+// WaitGroup.Wait: bufHandler.Close through Topic.close/removeHandler/replaceHandler) while it may hold Topics.mu therefore
+// deadlocks with one event queued for such a handler. May-hold lock set over go/cfg.
+func c07DrainLockTopics(c *core.Ctx, lib *packages.Package) {
+	rule := "C07.drainlock"
+	info := lib.TypesInfo
+	byObj := map[*types.Func]*core.Func{}
+	for _, f := range core.AllFuncs(lib) {
+		if o, ok := info.Defs[f.Decl.Name].(*types.Func); ok {
+			byObj[o] = f
+		}
+	}
+	drains := map[*types.Func]bool{}
+	calls := map[*types.Func][]*types.Func{}
+	for o, f := range byObj {
+		ast.Inspect(f.Decl.Body, func(nd ast.Node) bool {
+			switch x := nd.(type) {
+			case *ast.FuncLit, *ast.GoStmt:
+				return false
+			case *ast.CallExpr:
+				if sel, ok := x.Fun.(*ast.SelectorExpr); ok && sel.Sel.Name == "Wait" {
+					if s, ok := info.Selections[sel]; ok && core.TypeIs(s.Recv(), "sync", "WaitGroup") {
+						drains[o] = true
+					}
+				}
+				if m := core.Callee(info, x); m != nil && byObj[m] != nil {
+					calls[o] = append(calls[o], m)
+				}
+			}
+			return true
+		})
+	}
+	for changed := true; changed; {
+		changed = false
+		for o, cs := range calls {
+			if drains[o] {
+				continue
+			}
+			for _, m := range cs {
+				if drains[m] {
+					drains[o] = true
+					changed = true
+					break
+				}
+			}
+		}
+	}
+	// the re-entry: Topics.Collect takes Topics.mu
+	reenters := false
+	if fn := c.P.FindFunc("alert", "Topics", "Collect"); fn != nil {
+		ast.Inspect(fn.Decl.Body, func(nd ast.Node) bool {
+			if call, ok := nd.(*ast.CallExpr); ok {
+				if f, op := mutexFieldOp(info, call, "Topics"); f != "" && op == "+" {
+					reenters = true
+				}
+			}
+			return true
+		})
+	}
+	if !reenters {
+		c.Ok(rule, "Topics#no-reentry", "Topics.Collect takes no lock of Topics: draining under it cannot deadlock")
+		return
+	}
+	n := 0
+	for _, o := range sortedFuncs(byObj) {
+		f := byObj[o]
+		if core.RecvName(f.Decl) != "Topics" {
+			continue
+		}
+		at := mayHoldAtCalls(info, f.Decl.Body, "Topics", nil)
+		var bad *ast.CallExpr
+		what := ""
+		for call, held := range at {
+			if len(held) == 0 {
+				continue
+			}
+			m := core.Callee(info, call)
+			if m == nil || !drains[m] {
+				continue
+			}
+			if bad == nil || call.Pos() < bad.Pos() {
+				bad = call
+				what = core.RecvTypeName(m) + "." + m.Name()
+			}
+		}
+		takes := false
+		ast.Inspect(f.Decl.Body, func(nd ast.Node) bool {
+			if call, ok := nd.(*ast.CallExpr); ok {
+				if fl, op := mutexFieldOp(info, call, "Topics"); fl != "" && op == "+" {
+					takes = true
+				}
+			}
+			return true
+		})
+		if !takes {
+			continue
+		}
+		n++
+		c.Analysed(f)
+		cons := "Topics." + f.Decl.Name.Name
+		if bad != nil {
+			c.Fail(rule, cons+"#"+what, bad.Pos(), "%s waits for handler goroutines to deliver what is queued (%s reaches a WaitGroup.Wait) while Topics.mu may be held; a publish handler delivers into another topic through Topics.Collect, which takes Topics.mu: with one event queued for such a handler both wait for good, and nothing can be collected on any topic any more", cons, what)
+		} else {
+			c.Ok(rule, cons)
+		}
+	}
+	c.Floor(rule, "Topics methods that take Topics.mu", n, 8)
+}
+
+func sortedFuncs(m map[*types.Func]*core.Func) []*types.Func {
+	var out []*types.Func
+	for o := range m {
+		out = append(out, o)
+	}
+	sort.Slice(out, func(i, j int) bool { return out[i].Pos() < out[j].Pos() })
+	return out
+}
